@@ -31,6 +31,9 @@ def _walk_body(root):
     """Walk a def's own body (not nested defs), or any other node."""
     if isinstance(root, (ast.FunctionDef, ast.AsyncFunctionDef)):
         for s in root.body:
+            if isinstance(s, (ast.FunctionDef, ast.AsyncFunctionDef,
+                              ast.ClassDef)):
+                continue
             for n in _walk_no_scopes(s):
                 yield n
         return
